@@ -9,22 +9,14 @@ Arguments N.sub : simpl never. Arguments N.ltb : simpl never. Arguments N.eqb : 
 Arguments N.leb : simpl never.
 
 Definition is_seg (d : descriptor) : Prop := match d with Seg _ _ => True | Foreign _ _ => False end.
-(* every splice_time() of a timed component list carries a time (the encoder writes 0x7E otherwise: C09-a) *)
-Definition all_timed (c : Scte35Spec.command) : Prop :=
-  match c with
-  | Insert _ (Some b) => match ib_mode b with CompTimed cs => Forall (fun c => snd c <> None) cs | _ => True end
-  | _ => True
-  end.
-
 (* the sections the encoder can have produced: what the library supports, sap_type 3, exact splice_command_length,
    no alignment stuffing, foreign descriptors before the segmentation descriptors, 10-bit section_length,
-   CRC_32 = ComputeCRC of the preceding bytes; plus the two findings C09-a / C09-b excluded *)
+   CRC_32 = ComputeCRC of the preceding bytes *)
 Definition canonical (s : splice_info) : Prop :=
   supported s /\ si_sap s = 3 /\ si_legacy_len s = false /\ si_stuffing s = [] /\
   si_protocol s < 256 /\ si_cw s < 256 /\
   (exists fs segs, si_descs s = fs ++ segs /\ Forall is_foreign fs /\ Forall is_seg segs) /\
-  section_length s < 1024 /\ si_crc s = crc_reg (ser_section_nocrc s) /\
-  all_timed (si_cmd s) /\ (si_cmd s = Null -> si_pts_adj s = 0).
+  section_length s < 1024 /\ si_crc s = crc_reg (ser_section_nocrc s).
 
 (* ---- logical . expected = id ---- *)
 Lemma map_map_id {A B} (f : A -> B) (g : B -> A) l : (forall x, g (f x) = x) -> map g (map f l) = l.
@@ -94,10 +86,10 @@ Proof.
 Qed.
 
 (* ---- expected s is a normal encoder state ---- *)
-Lemma normal_expected_cmd c : wf_command c -> supported_cmd c -> all_timed c -> normal_cmd (expected_cmd c).
+Lemma normal_expected_cmd c : wf_command c -> supported_cmd c -> normal_cmd (expected_cmd c).
 Proof.
-  destruct c as [|t|eid [b|]|ty body]; cbn [wf_command supported_cmd all_timed expected_cmd normal_cmd]; intros Hw Hs Ht; try exact I; try contradiction.
-  - destruct t as [p|]; [|congruence]. cbn [st_has st_val wf_stime] in *. split; [reflexivity|assumption].
+  destruct c as [|t|eid [b|]|ty body]; cbn [wf_command supported_cmd expected_cmd normal_cmd]; intros Hw Hs; try exact I; try contradiction.
+  - destruct t as [p|]; [|congruence]. cbn [st_has st_val wf_stime] in *. intros _. assumption.
   - destruct Hw as [He Hb]. destruct b as [out mode brk up an ae].
     destruct Hb as (Hm & Hbrk & Hup & Han & Hae).
     cbn [ib_mode ib_break ib_unique_program_id ib_avail_num ib_avails_expected] in *.
@@ -117,8 +109,8 @@ Proof.
       * rewrite len_map'. assumption.
     + destruct Hm as [Hb Hl]. repeat split; intros; try discriminate; try assumption; try (apply Hd; assumption).
       * apply Forall_map. rewrite Forall_forall in *. intros [tag t] Hin.
-        specialize (Hb _ Hin). specialize (Ht _ Hin). cbn [fst snd] in *. destruct Hb as [H1 H2].
-        split; [exact H1|]. intros _. destruct t as [p|]; [|congruence]. cbn [st_has st_val wf_stime] in *. auto.
+        specialize (Hb _ Hin). cbn [fst snd] in *. destruct Hb as [H1 H2].
+        split; [exact H1|]. intros _. destruct t as [p|]; cbn [st_has st_val wf_stime] in *; intros; [assumption|discriminate].
       * rewrite len_map'. assumption.
   - unfold normal_insert, expected_insert. cbn. split; [exact Hw|]. intros; discriminate.
 Qed.
@@ -204,7 +196,7 @@ Qed.
 Theorem encode_decode_canonical s : canonical s ->
   new_scte35 (ser_splice_info s) = Ok (expected s) /\ fst (update_data (expected s)) = ser_section s.
 Proof.
-  intros (Hsup & Hsap & Hleg & Hstuff & Hpv & Hcw & (fs & segs & Hdescs & Hfs & Hsegs) & Hsl & Hcrc & Htimed & Hnull).
+  intros (Hsup & Hsap & Hleg & Hstuff & Hpv & Hcw & (fs & segs & Hdescs & Hfs & Hsegs) & Hsl & Hcrc).
   split; [apply decode_ser; exact Hsup|].
   pose proof Hsup as ((Hsap' & Hea & Hadj & Htier & Hcmd & Hcl & Hds & Hdl & Hsl') & Htid & Henc & Hptr & Hsc).
   assert (Hwsegs : Forall wf_descriptor segs).
@@ -215,7 +207,7 @@ Proof.
   assert (Hsub : subtract_pts (expected_pts s) (cmd_pts (expected_cmd (si_cmd s))) = si_pts_adj s).
   { rewrite cmd_pts_expected. unfold expected_pts. pose proof (cmd_time_lt _ Hcmd Hsc) as Ht.
     destruct (si_cmd s) as [|t|eid b|ty body] eqn:Ec.
-    - rewrite Hnull by reflexivity. reflexivity.
+    - unfold subtract_pts. cbn [st_val cmd_time]. replace (0 <=? si_pts_adj s) with true by (symmetry; apply N.leb_le; lia). lia.
     - apply subtract_add; assumption.
     - apply subtract_add; assumption.
     - destruct Hsc. }
